@@ -110,8 +110,24 @@ func (in *Interp) apply(fv *FuncV, args []Value, at token.Pos) []Value {
 		return fr.results()
 	}
 	decl := in.P.Decl(fv.Obj)
+	if decl == nil && fv.Has {
+		// a method of an interface (or of a type parameter's constraint): the
+		// receiver's dynamic type decides which declaration runs
+		if sig, ok := fv.Obj.Type().(*types.Signature); ok && sig.Recv() != nil {
+			if _, isIface := sig.Recv().Type().Underlying().(*types.Interface); isIface {
+				if conc := dynamicMethod(fv.Recv, fv.Obj); conc != nil && in.P.Decl(conc) != nil {
+					return in.apply(&FuncV{Obj: conc, Recv: fv.Recv, Has: true}, args, at)
+				}
+			}
+		}
+	}
 	if decl == nil || decl.Body == nil {
 		return in.native(fv, args, at)
+	}
+	if decl.Recv != nil && !fv.Has && len(args) > 0 {
+		// a method expression: the receiver travels as the first argument
+		fv = &FuncV{Obj: fv.Obj, Recv: args[0], Has: true}
+		args = args[1:]
 	}
 	pkg := in.P.Owner(fv.Obj)
 	if fv.Obj.Name() == "ReadFile" && pkg == in.P.Bebop() && len(args) == 1 {
@@ -584,6 +600,7 @@ type lval struct {
 	m    *MapV
 	key  interface{}
 	disc bool
+	zero Value // what a missing map entry reads as
 }
 
 func (l lval) get() Value {
@@ -594,7 +611,7 @@ func (l lval) get() Value {
 		if c, ok := l.m.M[l.key]; ok {
 			return c.V
 		}
-		return nil
+		return l.zero
 	}
 	return l.cell.V
 }
@@ -650,7 +667,7 @@ func (in *Interp) lvalue(fr *frame, e ast.Expr) lval {
 			}
 			return lval{cell: xv.E[i]}
 		case *MapV:
-			return lval{m: xv, key: mapKey(in.eval1(fr, e.Index))}
+			return lval{m: xv, key: mapKey(in.eval1(fr, e.Index)), zero: zero(info.TypeOf(e))}
 		case nil:
 			panic(evalErr("assignment to entry in nil map at %s", in.pos(e.Pos())))
 		}
@@ -1050,6 +1067,9 @@ func (in *Interp) eval(fr *frame, e ast.Expr) Value {
 					}
 				}
 				return &FuncV{Obj: fn, Recv: recv, Has: true}
+			case types.MethodExpr:
+				// T.m: a function whose first argument is the receiver
+				return &FuncV{Obj: sel.Obj().(*types.Func)}
 			}
 			panic(evalErr("unsupported selection at %s", in.pos(e.Pos())))
 		}
@@ -1570,4 +1590,33 @@ func describe(v Value) string {
 		return "{" + strings.Join(parts, " ") + "}"
 	}
 	return fmt.Sprintf("%v", v)
+}
+
+
+// dynamicMethod finds the method named like m in the method set of the
+// dynamic type of recv (a struct value, or a pointer to one).
+func dynamicMethod(recv Value, m *types.Func) *types.Func {
+	var named *types.Named
+	ptr := false
+	switch r := recv.(type) {
+	case *StructV:
+		named = r.T
+	case *Ptr:
+		if sv, ok := r.C.V.(*StructV); ok {
+			named, ptr = sv.T, true
+		}
+	}
+	if named == nil {
+		return nil
+	}
+	var t types.Type = named
+	if ptr {
+		t = types.NewPointer(named)
+	}
+	if sel := types.NewMethodSet(t).Lookup(m.Pkg(), m.Name()); sel != nil {
+		if f, ok := sel.Obj().(*types.Func); ok {
+			return f
+		}
+	}
+	return nil
 }
